@@ -19,15 +19,15 @@ def gen_jobs(ctx):
         ("c20_gen_small.cfg", gh.cfg("EmitCase", npaths=2, kinds=["rec", "alr"], names=["n1"], bodies=["v1", "m:n1", "A:n1"],
                                       labs=["l1"], maxrules=2, maxfork=2, commits=1 if not th else 2,
                                       ops=["ModifyExpr", "ChangeKind", "AddRule", "DeleteRule", "DeleteFile", "RenameFile"]),
-         400 if not th else 5000, dict(workers=2 if not th else 6)),
+         400 if not th else 6000, dict(workers=2 if not th else 6)),
         # (1b) exhaustive: two names, a dependant next to its provider in one file, ALERTS selectors for two alertnames
         ("c20_gen_pair.cfg", gh.cfg("EmitCase", npaths=1, kinds=["rec", "alr"], names=["n1", "n2"], bodies=["v1", "m:n1", "A:n2+A:n1"],
                                      labs=["l1"], maxrules=3, maxfork=3, commits=1,
                                      ops=["ChangeKind", "DeleteRule", "RenameRule", "SwapRules"]),
          300 if not th else 3000, dict(workers=2 if not th else 6)),
         # (2) simulation: three files, duplicate providers, two-selector expressions, replacements
-        ("c20_sim_wide.cfg", gh.cfg("EmitCase", **wide), 500 if not th else 7000,
-         dict(simulate=6 if not th else 30, depth=12 if not th else 14, workers=1)),
+        ("c20_sim_wide.cfg", gh.cfg("EmitCase", **wide), 500 if not th else 9000,
+         dict(simulate=6 if not th else 40, depth=12 if not th else 14, workers=1)),
     ]
 
 
